@@ -1824,6 +1824,33 @@ pub fn gen(tier: &str, seed: u64) -> Vec<String> {
         let h: Vec<String> = h.split_whitespace().map(|s| s.to_string()).collect();
         out.push(case_line(kind, &o, &rw, &fs, &h, tag));
     }
+    // actions that are resolved through the position of the pressed key (`_`, use-defsrc) at every
+    // nesting position of a defchordsv2 action: written out and named by an alias must be treated alike
+    for shape in [
+        "_", "use-defsrc", "(multi x _)", "(multi x use-defsrc)", "(tap-hold 200 200 _ x)", "(tap-hold 200 200 x _)",
+        "(tap-hold-release 200 200 x use-defsrc)", "(tap-hold-press-timeout 200 300 x y _)", "(tap-hold-release-timeout 200 300 x y _)",
+        "(tap-hold-release-timeout 200 300 x y use-defsrc)", "(tap-hold-release-timeout 200 300 _ y z)", "(tap-hold-release-keys 200 300 x _ (c))",
+        "(fork _ x (lsft))", "(fork x use-defsrc (lsft))", "(switch () _ break)", "(switch ((key-history a 1)) x break () use-defsrc break)",
+        "(tap-dance 100 (x _))", "(tap-dance-eager 100 (use-defsrc x))", "(multi lsft (tap-hold-press-timeout 200 300 x y (multi z _)))",
+        "(tap-hold-release-timeout 200 300 x y z)", "(multi x y)",
+    ] {
+        let direct = vec![
+            rd("(defcfg concurrent-tap-hold yes)"),
+            rd("(defsrc a b)"),
+            rd("(deflayer l0 a b)"),
+            rd(&format!("(defchordsv2 (a b) {shape} 200 all-released ())")),
+        ];
+        let aliased = vec![
+            rd("(defcfg concurrent-tap-hold yes)"),
+            rd("(defsrc a b)"),
+            rd("(deflayer l0 a b)"),
+            rd(&format!("(defalias m {shape})")),
+            rd("(defchordsv2 (a b) @m 200 all-released ())"),
+        ];
+        let h: Vec<String> = "p:a t:10 p:b t:500 r:a r:b t:100".split_whitespace().map(|s| s.to_string()).collect();
+        let kind = if shape.contains('_') || shape.contains("use-defsrc") { "posrej" } else { "pos" };
+        out.push(case_line(kind, &direct, &aliased, &[], &h, "chordsv2-positional"));
+    }
     let n = if tier == "thorough" { 120000 } else { 12000 };
     let mut i = 0;
     let mut attempts = 0;
